@@ -1,0 +1,14 @@
+//go:build verif
+
+// Contracts for package xpull (comment-only; read by /verif/govc).
+
+package xpull
+
+//@ struct pipe
+//@   immutable: p s closeQ
+//@
+//@ struct socket
+//@   lock Mutex level 20
+//@   guarded_by Mutex: closed sizeQ recvQ recvQLen resizeDiscards recvExpire
+//@   immutable: closeQ
+//@
